@@ -286,6 +286,14 @@ impl Sys for Or {
     fn validate_merge(a: &S, b: &S) -> Result<(), String> {
         a.validate_merge(b).map_err(|e| format!("{:?}", e))
     }
+    fn merge_reject_site(recs: &[Rec<Self>], _a: &S, _b: &S) -> &'static str {
+        // RC5: under correct use only add_all makes one dot witness several members
+        if recs.iter().any(|r| r.cmd.k == ADD_ALL) {
+            "-dot-shared-by-add-all"
+        } else {
+            ""
+        }
+    }
     fn double_spent(a: &S, b: &S) -> bool {
         for x in a.iter() {
             for y in b.iter() {
